@@ -126,6 +126,13 @@ func wireCheck(c *chk.Ctx, family string, expandKinds bool, random func(*chk.Ctx
 	if err != nil {
 		c.Broken("%v", err)
 	}
+	if family == "C11" {
+		per := 12
+		if c.Thorough() {
+			per = 0 // all variants
+		}
+		suite.ExpandMalformed(c.Seed, per)
+	}
 	c.Infof("%d cases over %d RPC shapes (%d class/kind combinations have no concrete form and were skipped)", len(suite.Cases), len(suite.Shapes), suite.Skipped)
 	out, err := suite.Execute(set)
 	if err != nil {
